@@ -31,6 +31,12 @@ OBLIGATIONS_FLAT = ['C01Flat.settled_exists', 'C01Flat.settled_unique', 'C01Flat
                     'C01Flat.exS2_text', 'C01Flat.exS2_check', 'C01.inline_concat', 'C01.inline_repeat', 'C01.inline_sext',
                     'C01.inline_smul', 'C01.gen_concatMSBF']
 
+# third proof stage (lean/Py4hwV/Props/C01Hier.lean): certified flattened texts, children with several leaves / assigns, one
+# level of structural hierarchy
+OBLIGATIONS_HIER = ['C01Hier.cert_run', 'C01Hier.cert_powerup', 'C01Hier.hier_elab', 'C01Hier.hier_text_run',
+                    'C01Hier.hier_text_powerup', 'FlatM.CertSrc.ok_of_check', 'FlatM.CertSrc.OK.seqCorr', 'FlatM.CertSrc.OK.cycOK',
+                    'FlatM.CertSrc.certSim_inv', 'FlatM.gkind_just', 'FlatM.HierSrc.flatten_scope', 'FlatM.HierSrc.step_sub',
+                    'FlatM.HierSrc.flatten_emitH']
 
 # ---- flat-text stream: the elaboration theorem `C01Flat.text_run` is tied to the REAL text per design -------------------------------
 # For a design whose top block has only covered primitives and Regs as children the exporter below imports the description
@@ -166,6 +172,191 @@ class FlatBatch:
                 # the real emitter wrote something else than the model of the theorem for a design the model covers
                 self.res.hist('flat_text_' + m['stream'], 'TEXT-DIFFERS')
                 self.res.disagree('flat-text', dict(kind=m['kind'], desc=m['desc'], driver=o[:1500], text=m['text'][:2000], src=m['src'][:1500]))
+
+
+# ---- hier-text stream: `C01Hier.hier_text_run` (several leaves / assigns per child, one level of structural hierarchy) ----------
+class NotCovered(Exception):
+    pass
+
+class HierExporter:
+    """imports the description `FlatM.HierSrc` (lean/Py4hwV/Emit/Hier.lean) of a live design: a structural top block whose children are
+    inlinable children, Regs, or structural blocks of inlinable children and Regs.  Net ids are global (one per Wire object)."""
+
+    def __init__(self, d, tree):
+        self.d, self.tree = d, tree
+        self.ids, self.widths = {}, []
+        self.leaf_objs = []
+
+    def nid(self, w):
+        from py4hw.base import Wire
+        if w is None:
+            return 0
+        if not isinstance(w, Wire):
+            raise NotCovered('fake wire')
+        if w not in self.ids:
+            self.ids[w] = len(self.widths)
+            self.widths.append(w.getWidth())
+        return self.ids[w]
+
+    def nat(self, v, what):
+        if isinstance(v, bool) or not isinstance(v, int) or v < 0:
+            raise NotCovered(what + ' not a natural')
+        return v
+
+    def gchild(self, ch):
+        from py4hw.rtl_generation import getInstanceName, getVerilogModuleName
+        k = type(ch).__name__
+        g = lambda *ws: ' '.join(str(self.nid(w)) for w in ws)
+        nid, nat = self.nid, self.nat
+        leaves = [ch]
+        if k == 'And2': c = f'(prim and2 {g(ch.a, ch.b, ch.r)})'
+        elif k == 'Or2': c = f'(prim or2 {g(ch.a, ch.b, ch.r)})'
+        elif k == 'Not': c = f'(prim not1 {g(ch.a, ch.r)})'
+        elif k == 'Buf': c = f'(prim buf {g(ch.a, ch.r)})'
+        elif k == 'ZeroExtend': c = f'(prim zext {g(ch.a, ch.r)})'
+        elif k == 'Bit': c = f"(prim bit {nid(ch.a)} {nat(ch.bit, 'bit')} {nid(ch.r)})"
+        elif k == 'Mux2': c = f'(prim mux2 {g(ch.sel, ch.sel0, ch.sel1, ch.r)})'
+        elif k == 'Constant': c = f"(prim const {nat(ch.value, 'constant')} {nid(ch.r)})"
+        elif k == 'ShiftLeftConstant': c = f"(prim shl {nid(ch.a)} {nat(ch.getParameterValue('n'), 'shift')} {nid(ch.r)})"
+        elif k == 'ShiftRightConstant': c = f"(prim shr {nid(ch.a)} {nat(ch.getParameterValue('n'), 'shift')} {nid(ch.r)})"
+        elif k == 'AddCarryIn': c = f'(prim addc {g(ch.a, ch.b, ch.ci, ch.r)})'
+        elif k == 'Sub': c = f'(prim sub {g(ch.a, ch.b, ch.r)})'
+        elif k == 'Mul': c = f'(prim mul {g(ch.a, ch.b, ch.r)})'
+        elif k == 'Range': c = f"(prim range {nid(ch.a)} {nat(ch.high, 'range')} {nat(ch.low, 'range')} {nid(ch.r)})"
+        elif k == 'ConcatenateMSBF': c = f"(prim catm {nid(ch.r)} ({g(*ch.ins)}))"
+        elif k == 'ConcatenateLSBF': c = f"(prim catl {nid(ch.r)} ({g(*ch.ins)}))"
+        elif k == 'Repeat': c = f'(prim rept {g(ch.i, ch.r)})'
+        elif k == 'SignExtend': c = f'(prim sext {g(ch.a, ch.r)})'
+        elif k == 'SignedMul': c = f'(prim smul {g(ch.a, ch.b, ch.r)})'
+        elif k == 'BitsLSBF': c = f"(gk bitsL {nid(ch.a)} ({g(*ch.bits)}))"
+        elif k == 'BitsMSBF': c = f"(gk bitsM {nid(ch.a)} ({g(*ch.bits)}))"
+        elif k == 'Div': c = f'(gk dm 0 {g(ch.a, ch.b, ch.r)})'
+        elif k == 'Mod': c = f'(gk dm 1 {g(ch.a, ch.b, ch.r)})'
+        elif k in ('And', 'Or'):
+            kids = list(ch.children.values())            # one Buf, or the ladder of And2 / Or2 in construction order
+            c = f"(gk nary {k.lower()} ({g(*ch.ins)}) {nid(ch.r)} ({g(*[x.r for x in kids[:-1]])}) 0)"
+            leaves = kids
+        elif k == 'Nor':
+            orb = ch.children['Or']
+            kids = list(orb.children.values())
+            c = f"(gk nary nor ({g(*ch.ins)}) {nid(ch.r)} ({g(*[x.r for x in kids[:-1]])}) {nid(orb.r)})"
+            leaves = kids + [ch.children['Not']]
+        elif k == 'Nand2':
+            c = f'(gk nand2 {g(ch.a, ch.b, ch.r, ch.mid)})'
+            leaves = [ch.children['And'], ch.children['Not']]
+        elif k == 'Nor2':
+            c = f'(gk nor2 {g(ch.a, ch.b, ch.r, ch.mid)})'
+            leaves = [ch.children['Or'], ch.children['Not']]
+        elif k == 'Xor2':
+            n = [ch.children[x] for x in ('NandMid', 'NandX', 'NandY', 'NandR')]
+            c = f'(gk xor2 {g(ch.a, ch.b, ch.r, n[0].r, n[1].r, n[2].r, n[0].mid, n[1].mid, n[2].mid, n[3].mid)})'
+            leaves = [x for m in n for x in (m.children['And'], m.children['Not'])]
+        elif k == 'Reg':
+            c = (f"(reg {getInstanceName(ch)} {getVerilogModuleName(ch)} {int(ch.r is not None)} {int(ch.e is not None)} "
+                 f"{nat(ch.reset_value, 'reset value')} {nid(ch.d)} {nid(ch.e)} {nid(ch.r)} {nid(ch.q)})")
+            leaves = []
+        else:
+            raise NotCovered('kind ' + k)
+        self.leaf_objs += leaves
+        return c
+
+    def mod(self, m, mname, child_fn):
+        from py4hw.rtl_generation import getWireNames, getPortName
+        from py4hw.base import Wire
+        if m.inOutPorts:
+            raise NotCovered('inout port')
+        names_of = getWireNames(m)
+        names = []
+        for w, n in names_of.items():
+            if isinstance(w, Wire):
+                if any(ch in n for ch in ' ()'):
+                    raise NotCovered('name not an atom')
+                names.append((self.nid(w), n))
+        ins = [(getPortName(p), self.nid(p.wire)) for p in m.inPorts]
+        outs = [(getPortName(p), self.nid(p.wire)) for p in m.outPorts]
+        tmod = [x for x in self.tree[1:] if x[1] == mname]
+        if not tmod:
+            raise NotCovered('module not in text')
+        n2i = {n: i for i, n in names}
+        try:
+            locals_ = [n2i[it[1]] for it in tmod[0][4][1:] if it[0] == 'wire']
+        except KeyError:
+            raise NotCovered('declared wire unknown')
+        children = [child_fn(ch) for ch in m.children.values()]
+        L = lambda xs: ' '.join(str(x) for x in xs)
+        return (f"(mod {mname} (names {' '.join(f'({i} {n})' for i, n in names)}) (inputs {' '.join(f'({n} {i})' for n, i in ins)}) "
+                f"(outputs {' '.join(f'({n} {i})' for n, i in outs)}) (locals {L(locals_)}) (children {' '.join(children)}))")
+
+    def hchild(self, ch):
+        from py4hw.rtl_generation import getInstanceName, getVerilogModuleName
+        try:
+            return self.gchild(ch)
+        except NotCovered as e:
+            if not str(e).startswith('kind '):
+                raise
+            if ch.isPrimitive() or not ch.children:
+                raise
+            kinds_before = len(self.leaf_objs)
+            try:
+                body = self.mod(ch, getVerilogModuleName(ch), self.gchild)
+            except NotCovered as e2:
+                raise NotCovered(str(e) + ' / inside: ' + str(e2))
+            return f'(sub {getInstanceName(ch)} {body})'
+
+    def export(self):
+        from py4hw.rtl_generation import getVerilogModuleName
+        top = self.d['top']
+        if not top.children:
+            raise NotCovered('no children')
+        topm = self.mod(top, getVerilogModuleName(top, noInstanceNumber=True), self.hchild)
+        sim = self.d['hw'].getSimulator()
+        pos = {id(l): i for i, l in enumerate(self.leaf_objs)}
+        order = []
+        for l in sim.propagatables:
+            if id(l) not in pos:
+                raise NotCovered('propagatable outside the design: ' + type(l).__name__)
+            order.append(pos[id(l)])
+        L = lambda xs: ' '.join(str(x) for x in xs)
+        return f"(hsrc {self.d['hw'].clockDriver.name} (widths {L(self.widths)}) {topm} (order {L(order)}))"
+
+
+class HierBatch:
+    """(parsed real text, imported hierarchical description) pairs for lean/Drv/C01Hier.lean"""
+
+    def __init__(self, res):
+        self.res, self.lines, self.meta = res, [], []
+
+    def add(self, d, tree, text, stream):
+        try:
+            src = HierExporter(d, tree).export()
+        except NotCovered as e:
+            self.res.hist('hier_text_' + stream, 'not-covered:' + str(e)[:80])
+            return
+        except Exception as e:
+            self.res.hist('hier_text_' + stream, 'export-error:' + type(e).__name__)
+            return
+        self.lines += ['design ' + vparse.sexp(tree), 'hsrc ' + src, 'check']
+        self.meta.append(dict(stream=stream, kind=d['kind'], desc=d['desc'], text=text, src=src, levels=2 if '(sub ' in src else 1))
+
+    def run(self):
+        if not self.lines:
+            return
+        try:
+            out = run_driver('Drv/C01Hier.lean', self.lines)
+        except ToolFailure as e:
+            self.res.broken.append(('correspondence', 'hier-text-driver', str(e)[:400]))
+            return
+        for m, o in zip(self.meta, out[2::3]):
+            if o == 'ok':
+                self.res.hist('hier_text_' + m['stream'], f"covered ({m['levels']} level{'s' if m['levels'] > 1 else ''}): text == HierSrc.emit and HierSrc.check")
+                self.res.count(('hier-text', m['src']), hist={})
+            elif o.startswith('fails '):
+                # outside the hypotheses of the theorem (a literal >= 2^31, a bit index outside its operand, two drivers, ...)
+                self.res.hist('hier_text_' + m['stream'], 'not-covered:check ' + o[6:])
+            else:
+                # the real emitter wrote something else than the model of the theorem for a design the model covers
+                self.res.hist('hier_text_' + m['stream'], 'TEXT-DIFFERS')
+                self.res.disagree('hier-text', dict(kind=m['kind'], desc=m['desc'], driver=o[:1500], text=m['text'][:2000], src=m['src'][:1500]))
 
 
 def widths_of(mod):
@@ -320,12 +511,19 @@ def main(res, tier, rng, replay):
     res.cov['obligations'] = res.cov.get('obligations', 0) + c0[0]
     res.cov['discharged'] = res.cov.get('discharged', 0) + c0[1]
     res.cov['axioms_seen'] = sorted(set(res.cov.get('axioms_seen', [])) | set(c0[2]))
-    res.cov['checker_cmd'] = 'cd lean && lake build Py4hwV.Props.C01 Py4hwV.Props.C01Flat && #print axioms on every obligation'
+    c1 = (res.cov.get('obligations', 0), res.cov.get('discharged', 0), list(res.cov.get('axioms_seen', [])))
+    res.proof_stage('Py4hwV.Props.C01Hier', OBLIGATIONS_HIER)
+    res.cov['obligations'] = res.cov.get('obligations', 0) + c1[0]
+    res.cov['discharged'] = res.cov.get('discharged', 0) + c1[1]
+    res.cov['axioms_seen'] = sorted(set(res.cov.get('axioms_seen', [])) | set(c1[2]))
+    res.cov['checker_cmd'] = ('cd lean && lake build Py4hwV.Props.C01 Py4hwV.Props.C01Flat Py4hwV.Props.C01Hier && #print axioms on every '
+                              'obligation')
     n = 400 if tier == 'quick' else 8000
     vb = vsim.VBatch()
     jobs = []
     nb = D.NetBatch(res, 'net-sim')
     fb = FlatBatch(res)
+    hb = HierBatch(res)
     for i in range(n):
         r = rng.fork(('d', i))
         kind = ['plan', 'lib', 'hier', 'c07', 'c08'][i % 5]
@@ -382,6 +580,8 @@ def main(res, tier, rng, replay):
         clk = d['hw'].clockDriver.name
         if kind in ('plan', 'lib'):
             fb.add(d, tree, text, kind)
+        if kind in ('plan', 'lib', 'hier'):
+            hb.add(d, tree, text, kind)
         vb.add(text, top, clk, hist, list(d['outputs']), label=len(jobs), tree=tree)
         # power-up drives every input with 0: for Div/Mod/SignedDiv that is a division by zero (excluded by the property)
         job = dict(desc=desc, hist=hist, trace=tr, tags=tags, text=text, patched=None, nondet0=d.get('nondet_div'))
@@ -413,6 +613,15 @@ def main(res, tier, rng, replay):
     cov_n = sum(v for k, v in hp.items() if k.startswith('covered'))
     res.cov['flat_theorem_coverage_of_plan_stream'] = (f'{cov_n}/{tot} plan designs are covered by C01Flat.text_run (children all in Kind ∪ Reg, '
                                                        f'parsed text == FlatSrc.emit, FlatSrc.check); reasons of the others: histogram flat_text_plan')
+    hb.run()
+    for stream in ('plan', 'lib', 'hier'):
+        hh = res.cov['histograms'].get('hier_text_' + stream, {})
+        tot = sum(hh.values())
+        cov_n = sum(v for k, v in hh.items() if k.startswith('covered'))
+        res.cov[f'hier_theorem_coverage_of_{stream}_stream'] = (
+            f'{cov_n}/{tot} {stream} designs are covered by C01Hier.hier_text_run (children of the top block: inlinable children incl. Bits/Nand2/'
+            f'Nor2/Xor2, Reg, or structural blocks of such children; parsed text == HierSrc.emit, HierSrc.check); reasons of the others: '
+            f'histogram hier_text_{stream}')
     try:
         results = vb.run()
     except ToolFailure as e:
@@ -467,7 +676,9 @@ def main(res, tier, rng, replay):
                        'exactly that feature matches the simulator; flat-text stream: for every plan/lib design and a dedicated stream of netlists of '
                        'covered primitives + Reg, the description imported from the live design is checked by lean/Drv/C01Flat.lean: parsed real text == '
                        'FlatSrc.emit (decidable equality) and FlatSrc.check, which are exactly the hypotheses of the design-level theorem C01Flat.text_run '
-                       '(all widths, all input histories from power-up); a covered design whose text differs from the model is a correspondence failure')
+                       '(all widths, all input histories from power-up); a covered design whose text differs from the model is a correspondence failure; '
+                       'hier-text stream: the same tie for C01Hier.hier_text_run on every plan/lib/hier design (lean/Drv/C01Hier.lean: parsed real text '
+                       '== HierSrc.emit, HierSrc.modsOKb and CertSrc.check of the certificate of the flattened text)')
     res.assumptions += ['formal reading of IEEE 1364-2005 in lean/Py4hwV/Verilog (no external Verilog simulator available to cross-check it)',
                         'value-level x (one unknown flag per value)', 'unsized decimal literals are 32-bit signed',
                         'one simulator cycle = falling then rising edge of the base clock; derived/gated clocks not explored by this check',
